@@ -156,17 +156,20 @@ def run_variants(case, strace=False):
             args = cli_args(c["opts"])
             if strace and variant == "A":
                 tr = os.path.join(W, "strace.out")
-                p = subprocess.run(["strace", "-f", "-e", "trace=openat,open", "-o", tr, os.path.join(BIN, "bkl")] + args,
+                p = subprocess.run(["strace", "-f", "-y", "-e", "trace=openat,open", "-o", tr, os.path.join(BIN, "bkl")] + args,
                                    cwd=cwd, capture_output=True, env={"PATH": "/usr/bin:/bin", "HOME": cwd}, timeout=60)
                 r = {"rc": p.returncode, "out": p.stdout.decode(), "err": p.stderr.decode()}
                 opened = []
                 if os.path.exists(tr):
+                    import re
+                    decoy_paths = {os.path.realpath(os.path.join(W, dname)) for dname in case["decoys"]}
                     for line in open(tr, errors="replace"):
                         if "ENOENT" in line or "= -1" in line:
                             continue
-                        for dname in case["decoys"]:
-                            if os.path.basename(dname) in line and ("O_RDONLY" in line) and "O_DIRECTORY" not in line and "O_PATH" not in line:
-                                opened.append(line.strip()[:200])
+                        # strace -y annotates the returned descriptor with the path it refers to: `= 8</abs/path>`
+                        m = re.search(r"= \d+<([^>]+)>\s*$", line)
+                        if m and os.path.realpath(m.group(1)) in decoy_paths and "O_RDONLY" in line and "O_DIRECTORY" not in line and "O_PATH" not in line:
+                            opened.append(line.strip()[:240])
                     os.unlink(tr)
                 r["decoy_opens"] = opened
             else:
